@@ -104,7 +104,158 @@ def _select(d, idx):
     return r
 
 
-class VBytes(object):
+
+class _SeqExtras(object):
+    """less common parts of the bytes/str API, shared by VBytes and VStr (code points / byte values in self._d)"""
+
+    def _cls_pred(self, ranges, ascii_only):
+        """all items inside the union of the closed ranges, and at least one item; symbolic -> branch"""
+        if not self._d:
+            return False
+        conds = []
+        for v in self._d:
+            if ascii_only and isinstance(v, SymInt) and (v.hi is None or v.hi > 127):
+                hi = v >= 128
+                if (hi if isinstance(hi, bool) else cur().branch(hi.e)):
+                    raise EngineLeak("character-class predicate on a symbolic non-ASCII code point")
+            elif ascii_only and not isinstance(v, SymInt) and v > 127:
+                raise EngineLeak("character-class predicate on a non-ASCII code point")
+            conds.append(s_or(*[s_and(v >= a, v <= b) for a, b in ranges]))
+        r = s_and(*conds)
+        return r if isinstance(r, bool) else cur().branch(r.e)
+
+    def isdigit(self):
+        if self.is_concrete():
+            return self.real().isdigit()
+        return self._cls_pred([(48, 57)], isinstance(self, VStr))
+
+    def isalpha(self):
+        if self.is_concrete():
+            return self.real().isalpha()
+        return self._cls_pred([(65, 90), (97, 122)], isinstance(self, VStr))
+
+    def isalnum(self):
+        if self.is_concrete():
+            return self.real().isalnum()
+        return self._cls_pred([(48, 57), (65, 90), (97, 122)], isinstance(self, VStr))
+
+    def isspace(self):
+        if self.is_concrete():
+            return self.real().isspace()
+        return self._cls_pred([(9, 13), (32, 32)] + ([(28, 31)] if isinstance(self, VStr) else []), isinstance(self, VStr))
+
+    def isascii(self):
+        r = s_and(*[v <= 127 for v in self._d]) if self._d else True
+        return r if isinstance(r, bool) else cur().branch(r.e)
+
+    def _cased(self, lo, hi, olo, ohi):
+        if self.is_concrete():
+            return None
+        anyc = s_or(*[s_and(v >= lo, v <= hi) for v in self._d]) if self._d else False
+        none_other = s_and(*[s_not(s_and(v >= olo, v <= ohi)) for v in self._d]) if self._d else True
+        if isinstance(self, VStr):
+            for v in self._d:
+                if isinstance(v, SymInt) and (v.hi is None or v.hi > 127):
+                    hi_ = v >= 128
+                    if (hi_ if isinstance(hi_, bool) else cur().branch(hi_.e)):
+                        raise EngineLeak("case predicate on a symbolic non-ASCII code point")
+        r = s_and(anyc, none_other)
+        return r if isinstance(r, bool) else cur().branch(r.e)
+
+    def islower(self):
+        r = self._cased(97, 122, 65, 90)
+        return self.real().islower() if r is None else r
+
+    def isupper(self):
+        r = self._cased(65, 90, 97, 122)
+        return self.real().isupper() if r is None else r
+
+    def rfind(self, sub):
+        sd = type(self)(sub)._d if not isinstance(sub, (int, SymInt)) else [sub]
+        n = len(sd)
+        for i in range(len(self._d) - n, -1, -1):
+            r = _eq_items(self._d[i:i + n], sd)
+            if (r if isinstance(r, bool) else cur().branch(r.e)):
+                return i
+        return -1
+
+    def count(self, sub):
+        if self.is_concrete() and not isinstance(sub, SymInt) and (isinstance(sub, int) or type(self)(sub).is_concrete()):
+            return self.real().count(sub if isinstance(sub, int) else type(self)(sub).real())
+        sd = type(self)(sub)._d if not isinstance(sub, (int, SymInt)) else [sub]
+        if len(sd) == 1:
+            r = 0
+            for v in self._d:
+                r = r + s_ite(v == sd[0], 1, 0)
+            return r
+        raise EngineLeak("count of a multi-item pattern on symbolic data")
+
+    def rindex(self, sub):
+        r = self.rfind(sub)
+        if not isinstance(r, SymInt) and r < 0:
+            raise ValueError("substring not found")
+        return r
+
+    def zfill(self, width):
+        n = len(self._d)
+        if width <= n:
+            return self
+        d = list(self._d)
+        if d:
+            sign = s_or(d[0] == 43, d[0] == 45)
+            if (sign if isinstance(sign, bool) else cur().branch(sign.e)):
+                return type(self)._mk([d[0]] + [48] * (width - n) + d[1:])
+        return type(self)._mk([48] * (width - n) + d)
+
+    def center(self, width, fill=None):
+        n = len(self._d)
+        if width <= n:
+            return self
+        f = 32 if fill is None else type(self)(fill)._d[0]
+        left = (width - n) // 2 + ((width - n) & width & 1)
+        return type(self)._mk([f] * left + list(self._d) + [f] * (width - n - left))
+
+    def partition(self, sep):
+        i = self.find(sep)
+        if isinstance(i, SymInt):
+            i = cur().concretize(i) if hasattr(cur(), 'concretize') else i
+        if i < 0:
+            return (self, type(self)._mk([]), type(self)._mk([]))
+        n = len(type(self)(sep)._d)
+        return (self[:i], self[i:i + n], self[i + n:])
+
+    def rpartition(self, sep):
+        i = self.rfind(sep)
+        if i < 0:
+            return (type(self)._mk([]), type(self)._mk([]), self)
+        n = len(type(self)(sep)._d)
+        return (self[:i], self[i:i + n], self[i + n:])
+
+    def replace(self, old, new, count=-1):
+        od = type(self)(old)._d
+        nd = type(self)(new)._d
+        if len(od) == 1 and len(nd) == 1 and count < 0:
+            return type(self)._mk([s_ite(v == od[0], nd[0], v) for v in self._d])
+        if self.is_concrete() and type(self)(old).is_concrete() and type(self)(new).is_concrete():
+            return type(self)(self.real().replace(type(self)(old).real(), type(self)(new).real(), count))
+        # general case: scan left to right, forking on each match
+        out, i, k, n = [], 0, 0, len(od)
+        if n == 0:
+            raise EngineLeak("replace of an empty pattern on symbolic data")
+        while i < len(self._d):
+            if (count < 0 or k < count) and i + n <= len(self._d):
+                r = _eq_items(self._d[i:i + n], od)
+                if (r if isinstance(r, bool) else cur().branch(r.e)):
+                    out.extend(nd)
+                    i += n
+                    k += 1
+                    continue
+            out.append(self._d[i])
+            i += 1
+        return type(self)._mk(out)
+
+
+class VBytes(_SeqExtras, object):
     """immutable virtual byte string"""
 
     def __new__(cls, src=b'', encoding=None, errors=None):
@@ -353,11 +504,6 @@ class VBytes(object):
             raise ValueError("subsection not found")
         return r
 
-    def count(self, sub):
-        if self.is_concrete():
-            return self.real().count(VBytes(sub).real() if _is_byteslike(sub) else sub)
-        raise EngineLeak("count on symbolic bytes")
-
     def _strip(self, chars, left, right):
         cd = list(b' \t\n\r\x0b\x0c') if chars is None else list(VBytes(chars)._d)
         d = list(self._d)
@@ -563,6 +709,30 @@ class VByteArray(object):
     startswith = VBytes.startswith
     endswith = VBytes.endswith
     __reversed__ = VBytes.__reversed__
+    rfind = _SeqExtras.rfind
+    rindex = _SeqExtras.rindex
+    count = _SeqExtras.count
+
+    def clear(self):
+        del self._d[:]
+
+    def copy(self):
+        return VByteArray(VBytes._mk(list(self._d)))
+
+    def remove(self, v):
+        i = VBytes.find(self, v)
+        if i < 0:
+            raise ValueError("value not found in bytearray")
+        del self._d[i]
+
+    def strip(self, chars=None):
+        return VByteArray(VBytes._mk(list(self._d)).strip(chars))
+
+    def lstrip(self, chars=None):
+        return VByteArray(VBytes._mk(list(self._d)).lstrip(chars))
+
+    def rstrip(self, chars=None):
+        return VByteArray(VBytes._mk(list(self._d)).rstrip(chars))
 
     def __repr__(self):
         if self.is_concrete():
@@ -574,7 +744,7 @@ class VByteArray(object):
 # VStr
 
 
-class VStr(object):
+class VStr(_SeqExtras, object):
     """virtual text: list of code points (int or SymInt).  tags[i] optional provenance."""
 
     def __init__(self, src=''):
@@ -809,10 +979,6 @@ class VStr(object):
             return [VStr(p) for p in self.real().split(sep if sep is None else VStr(sep).real(), maxsplit)]
         raise EngineLeak("split of symbolic str")
 
-    def isdigit(self):
-        if self.is_concrete():
-            return self.real().isdigit()
-        raise EngineLeak("isdigit of symbolic str")
 
 
 def _utf8_encode(v):
@@ -1093,6 +1259,44 @@ class VBytesIO(object):
 
     def close(self):
         pass
+
+    closed = False
+
+    def flush(self):
+        pass
+
+    def readable(self):
+        return True
+    writable = seekable = readable
+
+    def read1(self, n=-1):
+        return self.read(n)
+
+    def readinto(self, buf):
+        got = self.read(len(buf))
+        for i, v in enumerate(got._d):
+            buf[i] = v
+        return len(got)
+
+    def truncate(self, size=None):
+        size = self._pos if size is None else size
+        if isinstance(size, SymInt):
+            size = cur().concretize(size)
+        if size < len(self._d):
+            del self._d[size:]
+        return size
+
+    def getbuffer(self):
+        return VByteArray(VBytes._mk(list(self._d)))
+
+    def readline(self, size=-1):
+        i = self._pos
+        while i < len(self._d):
+            nl = self._d[i] == 10
+            i += 1
+            if (nl if isinstance(nl, bool) else cur().branch(nl.e)):
+                break
+        return self.read(i - self._pos)
 
     def __enter__(self):
         return self
